@@ -68,8 +68,10 @@ func v10fold[T uint8 | int](conv func(int) T) {
 	in := make(chan T, vrt.Param("cap", 0))
 	vrt.Go("producer", func() {
 		for i := 0; i < vrt.Param("n", 2); i++ {
+			vrt.Pace("producer")
 			in <- xs[i]
 		}
+		vrt.Pace("producer")
 		close(in)
 	})
 	out := Fold(ctx, par, in, monoid.FromOp(e, func(a, b T) T {
@@ -77,7 +79,12 @@ func v10fold[T uint8 | int](conv func(int) T) {
 		return v10op(e, a, b)
 	}))
 	vrt.Go("consumer", func() {
-		for v := range out {
+		for {
+			vrt.Pace("consumer")
+			v, more := <-out
+			if !more {
+				break
+			}
 			vrt.Assert("fold.value", vrt.And(got == 0, v == want))
 			got++
 		}
